@@ -632,6 +632,126 @@ func (s *c24bSys) runPair(c c24bCase) *c24bOutcome {
 	return out
 }
 
+// runKeepalive: every idle connection is made older than the pool's ping period (white-box:
+// returnTime moved back, nothing sleeps), the backend is left up ("pingOK"), has dropped the
+// connections ("reconnectOK": ping fails, reconnect succeeds) or is down ("backendDown": ping
+// and reconnect fail), then as many Gets as there are connections run one after the other.
+// Whatever Get answers, the ledger must balance afterwards and Close must terminate.
+func (s *c24bSys) runKeepalive(c c24bCase) *c24bOutcome {
+	srv, err := fakemysql.Start()
+	if err != nil {
+		s.incon = "cannot start a fake MySQL server: " + err.Error()
+		return nil
+	}
+	defer srv.Close()
+	srv.SetLogging(true, true)
+	w, err := c24bNewWorld(srv.Addr(), c.Cap, c.Max)
+	if err != nil {
+		s.incon = "cannot open the pool: " + err.Error()
+		return nil
+	}
+	c24bCur.Store((*c24bCtl)(nil))
+	out := &c24bOutcome{}
+	ctx := context.Background()
+	n := c.Cap
+	if c.Setup == "full" {
+		n = c.Max
+	}
+	for i := 0; i < n; i++ {
+		if w.doGet(0, ctx) == nil {
+			s.finish(w, false, nil)
+			return nil
+		}
+	}
+	for _, h := range w.outstanding() {
+		w.doRecycle(0, h, false)
+	}
+	s.quiet()
+	w.barrier("after setup")
+	w.mu.Lock()
+	for _, pc := range w.pcs {
+		pc.returnTime = time.Now().Add(-time.Hour) // idle for longer than pingPeriod
+	}
+	w.mu.Unlock()
+	switch c.First {
+	case "reconnectOK":
+		srv.KillAll()
+	case "backendDown":
+		srv.Close()
+	}
+	accepted0 := srv.Accepted()
+	srv.TakeEvents()
+	rounds := n
+	if c.First == "backendDown" {
+		rounds = n + 1 // one more Get: the slot is empty now and the factory fails too
+	}
+	got, failed := 0, 0
+	var ops []*c24bOp
+	for i := 0; i < rounds; i++ {
+		before := len(w.outstanding())
+		o := s.start(w, c, "get", 1+i, nil)
+		ops = append(ops, o)
+		s.quiet()
+		if !o.isDone() {
+			break
+		}
+		if len(w.outstanding()) > before {
+			got++
+		} else {
+			failed++
+		}
+		if c.First == "backendDown" || c.Second == "returnEach" {
+			for _, h := range w.outstanding() {
+				w.doRecycle(0, h, false)
+			}
+			s.quiet()
+		}
+	}
+	pings := 0
+	for _, e := range srv.TakeEvents() {
+		if e.Cmd == fakemysql.ComPing {
+			pings++
+		}
+	}
+	out.Parked = got+failed > 0
+	out.SecondDone = true
+	out.Steps = []string{fmt.Sprintf("gets_ok=%d gets_failed=%d pings_seen_by_server=%d reconnects=%d", got, failed, pings, srv.Accepted()-accepted0)}
+	pending := func() bool {
+		for _, o := range ops {
+			if !o.isDone() {
+				return true
+			}
+		}
+		return false
+	}
+	if s.incon == "" {
+		if pending() {
+			w.add("hang", "a Get on an aged connection never returned")
+		} else {
+			w.barrier("after the keep-alive Gets")
+		}
+		// the path under test must really have been taken
+		switch {
+		case c.First == "pingOK" && (pings < n || got != n):
+			w.add("keepalive.untested", out.Steps[0])
+		case c.First == "reconnectOK" && (int(srv.Accepted()-accepted0) < n || got != n):
+			w.add("keepalive.untested", out.Steps[0])
+		case c.First == "backendDown" && got != 0:
+			w.add("keepalive.untested", out.Steps[0])
+		}
+	}
+	for _, o := range ops {
+		o.cancel()
+	}
+	s.quiet()
+	s.finish(w, true, pending)
+	w.mu.Lock()
+	out.Findings = append([]c24bFinding(nil), w.finds...)
+	out.History = append([]c24bEv(nil), w.hist...)
+	w.mu.Unlock()
+	return out
+}
+
 func (s *c24bSys) runStress(c c24bCase) *c24bOutcome {
 	w, err := c24bNewWorld(s.addr, c.Cap, c.Max)
 	if err != nil {
@@ -751,6 +871,9 @@ func c24bReport(rec *kit.Rec, c c24bCase, out *c24bOutcome) {
 		if c.Kind == "stress" {
 			sig = "b|" + fd.Clause + "|stress|" + c.Mix + "|-"
 		}
+		if c.Kind == "keepalive" {
+			sig = "b|" + fd.Clause + "|keepalive|" + c.First + "|-"
+		}
 		rec.Violation(sig, fd.What, cc)
 	}
 }
@@ -769,11 +892,11 @@ func TestVerif_C24b(t *testing.T) {
 	srv.SetLogging(false, false)
 	util.VerifSetStep(c24bSysStep)
 	defer util.VerifSetStep(nil)
-	s := &c24bSys{self: kitrp.Gid(), addr: srv.Addr(), q: &kitrp.Quiet{Patterns: []string{"backend.c24b", "backend.(*c24b", "backend.(*connectionPoolImpl).", "backend.(*pooledConnectImpl).", "util.(*ResourcePool)."}}}
+	s := &c24bSys{self: kitrp.Gid(), addr: srv.Addr(), q: &kitrp.Quiet{Patterns: []string{"backend.c24b", "backend.(*c24b", "backend.(*connectionPoolImpl).", "backend.(*pooledConnectImpl).", "backend.(*DirectConnection).", "util.(*ResourcePool)."}}}
 
 	if p := kit.ReplayPath(); p != "" {
 		var c c24bCase
-		if err := kit.LoadReplay(p, &c); err != nil || (c.Kind != "pair" && c.Kind != "stress") || c.Max == 0 {
+		if err := kit.LoadReplay(p, &c); err != nil || (c.Kind != "pair" && c.Kind != "stress" && c.Kind != "keepalive") || c.Max == 0 {
 			rec.Eval(1)
 			rec.Nontrivial("replay-of-other-part")
 			rec.Nontrivial("replay-of-other-part2")
@@ -784,6 +907,8 @@ func TestVerif_C24b(t *testing.T) {
 		var out *c24bOutcome
 		if c.Kind == "stress" {
 			out = s.runStress(c)
+		} else if c.Kind == "keepalive" {
+			out = s.runKeepalive(c)
 		} else {
 			out = s.runPair(c)
 		}
@@ -861,6 +986,42 @@ func TestVerif_C24b(t *testing.T) {
 								c24bReport(rec, c, out)
 							}
 						}
+					}
+				}
+			}
+		}
+	}
+	// keep-alive family: aged idle connections x backend state
+	kcaps := []cm{{1, 2}, {2, 3}}
+	if thorough {
+		kcaps = []cm{{1, 1}, {1, 2}, {1, 3}, {2, 2}, {2, 3}, {3, 4}}
+	}
+	for _, k := range kcaps {
+		for _, su := range []string{"warm", "full"} {
+			for _, v := range []string{"pingOK", "reconnectOK", "backendDown"} {
+				for _, ret := range []string{"holdAll", "returnEach"} {
+					c := c24bCase{Kind: "keepalive", Cap: k.c, Max: k.m, Setup: su, First: v, Second: ret}
+					out := s.runKeepalive(c)
+					if s.incon != "" {
+						bj, _ := json.Marshal(c)
+						rec.Inconclusive(s.incon + " in " + string(bj))
+						return
+					}
+					if out == nil {
+						continue
+					}
+					rec.Eval(1)
+					rec.Count("b.keepalive."+v, 1)
+					if out.Parked {
+						rec.Nontrivial(fmt.Sprintf("b|keepalive|%s|%s|%s|%d/%d", v, su, ret, k.c, k.m))
+					}
+					if v == "backendDown" && k.c == 1 && su == "warm" && ret == "holdAll" {
+						cc := c
+						cc.Obs = out
+						rec.Sample(cc)
+					}
+					if len(out.Findings) > 0 {
+						c24bReport(rec, c, out)
 					}
 				}
 			}
